@@ -11,13 +11,14 @@ theorem take_append_len {α} (a b : List α) (n : Nat) (h : a.length = n) : (a +
 theorem drop_append_len {α} (a b : List α) (n : Nat) (h : a.length = n) : (a ++ b).drop n = b := by
   subst h; simp
 
-theorem decHead_wide (mt ai w n : Nat) (r : Bytes) (hmt : mt < 8) (hai : 24 ≤ ai) (hai' : ai < 32)
+theorem decHead_wide (mt ai w n : Nat) (r : Bytes) (hmt : mt < 8) (hai : 24 ≤ ai) (hai' : ai < 28)
     (hw : argWidth ai = w) (hn : n < 256 ^ w) :
     decHead (UInt8.ofNat (mt * 32 + ai) :: (natBE w n ++ r)) = some (mt, ai, n, r) := by
   have hb : (UInt8.ofNat (mt * 32 + ai)).toNat = mt * 32 + ai := toNat_ofNat_lt _ (by omega)
   have h1 : (mt * 32 + ai) / 32 = mt := by omega
   have h2 : (mt * 32 + ai) % 32 = ai := by omega
   simp only [decHead, hb, h1, h2, hw]
+  rw [if_neg (by omega)]
   rw [if_neg (by omega)]
   rw [if_neg (by simp)]
   rw [take_append_len _ _ _ (natBE_length w n), drop_append_len _ _ _ (natBE_length w n), beNat_natBE w n hn]
@@ -140,6 +141,10 @@ theorem decHead_append (b t : Bytes) {mt ai arg : Nat} {r : Bytes}
       rw [if_pos h24]; subst h1 h2 h3 h4; rfl
     · rename_i h24
       rw [if_neg h24]
+      split at h
+      · simp at h
+      rename_i h28
+      rw [if_neg h28]
       split at h
       · simp at h
       · rename_i hlen
@@ -301,6 +306,9 @@ theorem decHead_split (b : Bytes) {mt ai arg : Nat} {r : Bytes}
     · rename_i h24
       split at h
       · simp at h
+      rename_i h28
+      split at h
+      · simp at h
       · rename_i hlen
         simp only [Option.some.injEq, Prod.mk.injEq] at h
         obtain ⟨h1, h2, h3, h4⟩ := h
@@ -309,7 +317,7 @@ theorem decHead_split (b : Bytes) {mt ai arg : Nat} {r : Bytes}
         · rw [← h4]; simp
         · intro t
           simp only [decHead, List.cons_append]
-          rw [if_neg h24]
+          rw [if_neg h24, if_neg h28]
           have hlen' : (xs.take (argWidth (x.toNat % 32))).length = argWidth (x.toNat % 32) := by
             simp; omega
           rw [if_neg (by simp; omega)]
